@@ -23,7 +23,7 @@ META = {
              'lower_neighbors tuple sorted longlex. distinct_nontrivial = distinct tables with two '
              'concepts of equal extent size and a concept whose neighbors differ in size.'),
     'evaluation_counters': ['judged_order'],
-    'required_counters': ['judged_order', 'judged_order_init', 'judged_order_fromlist',
+    'required_counters': ['judged_order', 
                           'judged_order_loaded_raw', 'judged_order_unpickled',
                           'judged_order_session_recheck', 'ties_broken_by_position'],
     'shards': {'quick': 16, 'thorough': 16},
